@@ -476,7 +476,12 @@ func (in *Interp) newBlob(tag string, first string, msg Value, typ types.Type) *
 	if in.blobs == nil {
 		in.blobs = map[*SymStr]*blobRec{}
 	}
-	in.blobs[atom] = &blobRec{msg: in.deepCopy(msg, map[*Obj]*Obj{}), typ: typ}
+	rec := &blobRec{msg: in.deepCopy(msg, map[*Obj]*Obj{}), typ: typ}
+	in.blobs[atom] = rec
+	if in.blobByTerm == nil {
+		in.blobByTerm = map[*Term]*blobRec{}
+	}
+	in.blobByTerm[atom.B[0]] = rec // the identity byte survives copies through byte arrays
 	return in.str.Concat(in.str.Const(first), &Str{segs: []Seg{{sym: atom}}})
 }
 
@@ -486,6 +491,15 @@ func (in *Interp) blobOf(s *Str) (*blobRec, bool) {
 		if g.sym != nil {
 			if r, ok := in.blobs[g.sym]; ok {
 				return r, true
+			}
+		}
+	}
+	for _, g := range s.segs {
+		if g.sym != nil {
+			for _, t := range g.sym.B {
+				if r, ok := in.blobByTerm[t]; ok {
+					return r, true
+				}
 			}
 		}
 	}
